@@ -126,9 +126,19 @@ func (g *G) intOrd(d int) Expr {
 	case r < 14:
 		g.feat("map-literal")
 		m := &MapLit{}
+		if g.R.Intn(3) == 0 {
+			// typed spelling: same order, key then value, entry by entry
+			g.feat("typed-map-literal")
+			m.Typed = true
+		}
 		for i := 1 + g.R.Intn(3); i > 0; i-- {
 			m.Keys = append(m.Keys, &Call{Fn: "pv", Args: []Expr{&IntLit{V: g.probeID()}, &StrLit{V: "k" + strconv.Itoa(i)}}})
-			m.Vals = append(m.Vals, g.intOrd(d-1))
+			if m.Typed {
+				// plain integer operands only: the typed literal converts its values
+				m.Vals = append(m.Vals, g.leaf())
+			} else {
+				m.Vals = append(m.Vals, g.intOrd(d-1))
+			}
 		}
 		return &Len{X: m}
 	default:
@@ -366,6 +376,47 @@ func (g *G) orderStmt() []Stmt {
 		}
 		s.HasDefault, s.DefaultPos, s.Default = true, 2, []Stmt{&ExprStmt{X: g.p()}}
 		return []Stmt{s}
+	case r < 19 && g.R.Intn(6) == 0:
+		// a Go function started with `go` panics on its goroutine while the spawner is in the
+		// middle of an operand list (inside a script function that waits for the goroutine to be
+		// gone): the spawner's operands are all evaluated, its statement does not fail
+		g.feat("stmt-go-panicking-host")
+		fn := g.fresh("gs")
+		return []Stmt{
+			&ExprStmt{X: &FuncLit{Name: fn, Params: []string{"q0"}, Body: []Stmt{&ExprStmt{X: &Call{Fn: "gsettle"}}, &Return{Exprs: []Expr{&Name{N: "q0"}}}}}},
+			&Go{C: &Call{Fn: "hgp", Args: []Expr{&IntLit{V: g.probeID()}}}},
+			&ExprStmt{X: &Call{Fn: "rd", Args: []Expr{&StrLit{V: fn}, &ListLit{Elems: []Expr{g.p(), &Call{Fn: fn, Args: []Expr{g.p()}}, g.p(), &Binary{Op: "+", L: g.p(), R: g.p()}}}}}},
+			&ExprStmt{X: &Call{Fn: "rd", Args: []Expr{&StrLit{V: fn}, &Call{Fn: "hv", Args: []Expr{&IntLit{V: g.probeID()}, &Call{Fn: fn, Args: []Expr{g.p()}}, g.p()}}}}},
+		}
+	case r < 19 && g.R.Intn(4) == 0:
+		// a function whose body is exactly one return statement: its operands are evaluated
+		// once, also when one of them fails (every arity / call path)
+		g.feat("stmt-single-return-function")
+		fn := g.fresh("sr")
+		np := []int{0, 1, 2, 5, 6}[g.R.Intn(5)]
+		params := make([]string, np)
+		var args []Expr
+		for i := range params {
+			params[i] = "q" + strconv.Itoa(i)
+			args = append(args, &IntLit{V: int64(i + 1)})
+		}
+		f := &FuncLit{Name: fn, Params: params}
+		if np > 0 && g.R.Intn(3) == 0 {
+			f.Variadic = true
+		}
+		body := g.intOrd(d + 1)
+		if g.R.Intn(2) == 0 {
+			// make sure something fails after side effects
+			body = &Binary{Op: "+", L: &Binary{Op: "+", L: g.p(), R: g.intOrd(d)}, R: &Call{Fn: "pe", Args: []Expr{&IntLit{V: g.probeID()}}}}
+			g.feat("failing-operand")
+		}
+		f.Body = []Stmt{&Return{Exprs: []Expr{body}}}
+		var call Expr = &Call{Fn: fn, Args: args}
+		if g.R.Intn(3) == 0 {
+			call = &Coalesce{L: call, R: &StrLit{V: "<failed>"}}
+		}
+		return []Stmt{&ExprStmt{X: f}, &ExprStmt{X: &Call{Fn: "rd", Args: []Expr{&StrLit{V: fn}, &Coalesce{L: call, R: &StrLit{V: "<failed>"}}}}},
+			&ExprStmt{X: &Call{Fn: "rd", Args: []Expr{&StrLit{V: fn}, &Coalesce{L: &Call{Fn: fn, Args: args}, R: &StrLit{V: "<failed>"}}}}}}
 	case r < 19 && g.R.Intn(3) == 0:
 		// a nested assignment target: the operands of the container expression and the index are
 		// each evaluated once, also when the store appends (index len), adds a map entry or goes
